@@ -11,6 +11,15 @@ from concurrent.futures import ThreadPoolExecutor
 ROOT = os.path.dirname(os.path.abspath(__file__))
 EQ = os.path.join(ROOT, "equiv")
 ENV = dict(os.environ, GOFLAGS="-mod=mod", GOPROXY="off", GOSUMDB="off", GOTOOLCHAIN="local")
+
+
+def freeze_harness():
+    """Long runs build from a frozen copy of the harness so that /verif/harness can be edited meanwhile."""
+    import shutil, atexit
+    snap = "/tmp/harness-snap-%d" % os.getpid()
+    shutil.copytree(os.path.join(ROOT, "harness"), snap, ignore=shutil.ignore_patterns("testdata"))
+    ENV["VERIF_HARNESS_DIR"] = snap
+    atexit.register(lambda: shutil.rmtree(snap, ignore_errors=True))
 PROPS = ["C%02d" % i for i in range(1, 20)]
 
 
@@ -52,6 +61,7 @@ def run(name):
 
 
 if __name__ == "__main__":
+    freeze_harness()
     if sys.argv[1] == "run":
         names = sys.argv[2:]
     else:
